@@ -25,6 +25,9 @@ pub mod site {
     pub const TURN: u32 = 5;
     /// Expiry sweeper: woke up, about to start a pass.
     pub const SWEEP_WAKE: u32 = 6;
+    /// RDB writer: inside the serialisation of one value that is shared with the live dataset
+    /// (sorted set / stream), between two reads of it (a = step).
+    pub const RDB_SHARED_VALUE: u32 = 7;
 }
 
 /// Install the scheduling callback (process-wide).
